@@ -46,7 +46,7 @@ func init() {
 		"time.Now":                   mFreshTime,
 		"strconv.Itoa":               mItoa,
 		"os.Getenv":                  mUninterpStr("os.Getenv"),
-		"path/filepath.Join":         mFreshString("filepath.Join"),
+		"path/filepath.Join":         mPathJoin,
 		"path/filepath.Base":         mUninterpStr("filepath.Base"),
 		"path/filepath.Dir":          mUninterpStr("filepath.Dir"),
 		"path/filepath.Clean":        mUninterpStr("filepath.Clean"),
@@ -461,4 +461,22 @@ func mSortSort(f *frame, args []Val, c *ssa.CallCommon, pos string) Val {
 	x.qsyms = x.qsyms[:len(x.qsyms)-2]
 	f.assume("(forall ((" + qi + " Int) (" + qj + " Int)) " + Implies(And(app("<=", off, qi), app("<", qi, qj), app("<", qj, app("+", off, ln))), Not(lt.S)) + ")")
 	return Val{T: types.NewTuple()}
+}
+
+// filepath.Join: an uninterpreted function of the number of elements and of the first three
+// elements (every call in the repository has at most three); pathjoin2/pathjoin3 in specifications.
+func mPathJoin(f *frame, args []Val, c *ssa.CallCommon, pos string) Val {
+	x := f.x
+	h := x.heap
+	f.trust("filepath.Join is an uninterpreted function of its (at most three) elements")
+	sl := args[0]
+	key := elemKey(stringT, "")
+	sort := h.arrSort(h.arrSort("String"))
+	arr := Select(h.get(f.st, key, sort), sl.Fs[0].S)
+	el := func(i int) string {
+		return Ite(app("<", IntLit(int64(i)), sl.Fs[2].S), Select(arr, app("+", sl.Fs[1].S, IntLit(int64(i)))), StrLit(""))
+	}
+	f.safety("model", "filepath.Join called with more than three elements (outside the model)", app("<=", sl.Fs[2].S, "3"), pos)
+	fn := x.vc.Fun("fn:filepath.Join", []string{"Int", "String", "String", "String"}, "String")
+	return Val{T: stringT, S: app(fn, sl.Fs[2].S, el(0), el(1), el(2))}
 }
